@@ -24,7 +24,12 @@ def _lang_tables(ctx, rule):
                          "%s is not fed from a constant table (fail closed)" % m)
                 bad = True
                 continue
-            rows = T.const_table(ctx, table)
+            if isinstance(table, list):
+                parts = [T.const_table(ctx, tb_) for tb_ in table]
+                rows = None if any(p_ is None for p_ in parts) else [r_ for p_ in parts for r_ in p_]
+                table = "+".join(table)
+            else:
+                rows = T.const_table(ctx, table)
             if rows is None or any(r is None for r in rows):
                 ctx.fail(rule, "table-read:%s" % table, where(lc.body, bi, t), "cannot read constant table %s (fail closed)" % table)
                 bad = True
@@ -480,6 +485,35 @@ def reduce_equal_length(ctx, rule):
                 s0 = S.strip_refs(src)
                 if s0[0] == "agg" and s0[2].endswith("Range::Range") and all(s_[0] == "into_iter" for s_ in stages):
                     amount = B.lin(s0[3][1]) - B.lin(s0[3][0])
+            if amount is None and m == "push" and ih is not None:
+                # count-down form: `let mut k = D; while k > 0 { push; k -= 1 }` pushes D times — one usize variable that is
+                # initialised outside the inner loop, decremented by 1 exactly once per trip, the push on every trip, and the
+                # loop left exactly when the variable is 0
+                for l_, ds_ in b.defs().items():
+                    if b.local_ty(l_) != "usize" or len(ds_) != 2:
+                        continue
+                    init = [d_ for d_ in ds_ if not cfg.in_natural_loop(d_[1], ih)]
+                    dec = [d_ for d_ in ds_ if cfg.in_natural_loop(d_[1], ih)]
+                    if len(init) != 1 or len(dec) != 1 or init[0][0] != "assign" or dec[0][0] != "assign":
+                        continue
+                    dv = B.lin(sy.rvalue(dec[0][3]["rv"]))
+                    if not (dv.co == {("var", l_): 1} and dv.c == -1):
+                        continue
+                    guard_ok = False
+                    ht = b.blocks[ih]["term"] if b.blocks[ih]["term"] else None
+                    for gb in [ih] + [x_ for x_ in range(len(b.blocks)) if cfg.in_natural_loop(x_, ih)]:
+                        gt = b.blocks[gb]["term"]
+                        bt_ = U.bool_switch_targets(gt) if gt and gt["k"] == "switch" else None
+                        if not bt_:
+                            continue
+                        ge = S.strip_refs(sy.operand(gt["discr"]))
+                        if ge[0] == "binop" and ge[1] in ("Gt", "Ne") and B.lin(ge[2]).co == {("var", l_): 1} and \
+                                U.is_const(ge[3]) and S.const_value(ge[3]) == 0:
+                            stays, leaves = bt_[1], bt_[0]
+                            if cfg.in_natural_loop(stays, ih) and not cfg.in_natural_loop(leaves, ih):
+                                guard_ok = True
+                    if guard_ok and cfg.in_natural_loop(bi, ih) and cfg.every_path_passes(dec[0][1], [ih]):
+                        amount = B.lin(sy.rvalue(init[0][3]["rv"]))
             if amount is None:
                 problems.append("buffer %d is changed by `%s` in a nested loop that is not `for _ in lo..hi { push }`" % (i + 1, m))
             else:
